@@ -126,7 +126,7 @@ class AtomsExplicit(Ext):
                     flag = I_.path.branch(flag.t)
                 self.log.append(("set_positions", bool(flag)))
                 new = self._as(a[0])
-                self.positions = self.apply_positions(I_, new) if (flag and self.constraints) else new.copy()
+                self.positions.data[:] = (self.apply_positions(I_, new) if (flag and self.constraints) else new).data     # in place, as ase
             return Builtin("set_positions", sp)
         if name == "set_momenta":
             def sm(I_, a, k):
@@ -135,15 +135,15 @@ class AtomsExplicit(Ext):
                     flag = I_.path.branch(flag.t)
                 self.log.append(("set_momenta", bool(flag)))
                 p = self._as(a[0])
-                self.momenta = self.apply_momenta(I_, p) if (flag and self.constraints) else p.copy()
+                self.momenta.data[:] = (self.apply_momenta(I_, p) if (flag and self.constraints) else p).data
             return Builtin("set_momenta", sm)
         if name == "set_array":
             def sa(I_, a, k):
                 self.log.append(("set_array", a[0]))
                 if a[0] == "momenta":
-                    self.momenta = self._as(a[1]).copy()
+                    self.momenta.data[:] = self._as(a[1]).data
                 elif a[0] == "positions":
-                    self.positions = self._as(a[1]).copy()
+                    self.positions.data[:] = self._as(a[1]).data
                 else:
                     raise Unsupported(f"set_array({a[0]})")
             return Builtin("set_array", sa)
@@ -190,6 +190,6 @@ class AtomsExplicit(Ext):
     def py_setattr(self, I, name, value):
         if name == "positions":
             self.log.append(("positions=",))
-            self.positions = self._as(value).copy()
+            self.positions.data[:] = self._as(value).data
             return
         raise Unsupported(f"set Atoms.{name} (explicit view)")
